@@ -193,7 +193,7 @@ def cells():
                     twin=False, bounds='sparse input', **big))
     out.append(Cell('recurrence[damped,1x2,notrack,k=2]', 'c03:recurrence', dict(m=1, n=2, k=2, which='damped', kind='real', track=False),
                     twin=False, bounds='residual tracking off', **big))
-    for (m, n), r, k, tier in [((1, 1), 1, 3, 'quick'), ((2, 2), 2, 2, 'quick'), ((3, 2), 2, 2, 'quick'), ((2, 3), 1, 3, 'quick'), ((3, 3), 3, 2, 'thorough'),
+    for (m, n), r, k, tier in [((1, 1), 1, 3, 'quick'), ((2, 2), 2, 2, 'quick'), ((3, 2), 2, 2, 'quick'), ((2, 3), 1, 3, 'quick'), ((2, 3), 2, 1, 'quick'), ((2, 3), 2, 2, 'thorough'), ((3, 3), 3, 2, 'thorough'),
                                ((2, 2), 2, 3, 'thorough'), ((2, 2), 1, 3, 'quick')]:
         for which in ('damped', 'third'):
             out.append(Cell('spectral[%s,%dx%d,rank=%d,k=%d]' % (which, m, n, r, k), 'c03:recurrence',
